@@ -303,6 +303,11 @@ func (w *World) monAckAfterAccept(h []ev) {
 			if p, ok := e.pkt.(*packet.Publish); ok && p.Message.QOS > 0 {
 				open[key{e.conn, p.ID}] = p
 			}
+		case "bpublish-refused":
+			// the backend returned an error for it: not accepted (an acknowledgement must not follow)
+			if p, ok := e.pkt.(*packet.Publish); ok {
+				accepted[msgKey(e.conn, &p.Message)]--
+			}
 		case "bpublish":
 			if p, ok := e.pkt.(*packet.Publish); ok {
 				accepted[msgKey(e.conn, &p.Message)]++
@@ -883,9 +888,6 @@ func (w *World) monTakeover(h []ev) {
 // Retained replay: every retained message whose topic matches a filter of an accepted SUBSCRIBE must reach that
 // connection afterwards, flagged retained, under the same conditions.
 func (w *World) monMissing(h []ev) {
-	if w.queue < 100 {
-		return
-	}
 	fin := -1
 	for i, e := range h {
 		if e.kind == "finish" {
@@ -1067,7 +1069,8 @@ func (w *World) monMissing(h []ev) {
 			// the connection that held the subscription lived on to the end: it must have got the message, whatever the QoS
 			x.live = true
 			target = x.conn
-		case persistent(x.k) && x.qos > 0 && x.grant > 0:
+		case persistent(x.k) && x.qos > 0 && x.grant > 0 && w.queue >= 100:
+			// (with a small session queue an offline session legitimately drops what does not fit)
 			// recorded for a persistent session at a delivery QoS >= 1: some connection of the session must get it, provided
 			// the subscriptions that decide the delivery QoS did not change afterwards
 			changed := false
